@@ -1,9 +1,54 @@
+import Drx.Pal
 import Drx.Drv.Util
 namespace Drx.Drv.Pal
-open Drx Drx.Drv
+open Drx Drx.Drv Drx.Pal
 
-/-- commands of the `pal` family (stub: nothing implemented yet) -/
+/-- a name argument: hex of its UTF-8 bytes ("-" = empty) -/
+def parseName (h : String) : Option String := do
+  let b ← bytesOfHex h
+  String.fromUTF8? (ByteArray.mk b.toArray)
+
+/-- `r:g:b,r:g:b,...` ("-" = empty palette) -/
+def parsePalette (s : String) : Option (List Rgb16) :=
+  if s = "-" then some [] else
+  (s.splitOn ",").mapM fun e =>
+    match e.splitOn ":" with
+    | [r, g, b] => do some ⟨← parseNat r, ← parseNat g, ← parseNat b⟩
+    | _ => none
+
+def rgbJ (l : List (List Char)) : J := .arr (l.map J.str)
+
+def rangeInts (lo : Int) : Nat → List Int
+  | 0 => []
+  | n + 1 => lo :: rangeInts (lo + 1) n
+
+/-- commands of the `pal` family (see harness/c14.py) -/
 def run : List String → Option String
+  | ["rgb", h] => do
+    let b ← bytesOfHex h
+    some (rJ rgbJ (clut2rgb b))
+  | ["clut", h] => do
+    let b ← bytesOfHex h
+    some (rJ J.hex (clut2palette b))
+  | ["spec", p] => do
+    -- the specification side: Lean encoder + expected tables, compared with the real functions on the encoded bytes
+    let p ← parsePalette p
+    some (J.obj [("enc", J.hex (encClut p)),
+                 ("bmp", if p.length ≥ 256 then J.hex (bmpTable (p.take 256)) else J.s "error"),
+                 ("rgb", rgbJ (rgbList p))]).render
+  | ["write", nbits, ncolors, name, data] => do
+    let nbits ← parseNat nbits; let ncolors ← parseNat ncolors; let name ← parseName name; let d ← bytesOfHex data
+    some (rJ J.hex (writeColorPalette nbits ncolors name d))
+  | ["bmp", depth, txt, clut] => do
+    let depth ← parseNat depth; let txt ← parseName txt; let c ← bytesOfHex clut
+    some (rJ (fun t => J.obj [("offset", match bmpDataOffset depth with | some o => J.nat o | none => J.null), ("table", J.hex t)])
+      (bmpColorTable depth txt c))
+  | ["name", v] => do
+    let v ← parseInt v
+    some (J.s (paletteName v)).render
+  | ["names", lo, n] => do
+    let lo ← parseInt lo; let n ← parseNat n
+    some (J.arr ((rangeInts lo n).map fun v => J.s (paletteName v))).render
   | _ => none
 
 end Drx.Drv.Pal
